@@ -95,12 +95,36 @@ def run(ctx, ps, gen_bad):
     fails += f2
     cov.update(c2)
     cov['evaluations'] += c2['concurrent_histories']
+    # what a reply showed must survive a crash right after it: GETATTRs polling a file while a WRITE extends it; a
+    # reply with the new size during which the disk did not change is checked against the server recovered from
+    # exactly that disk image
+    nobs = 0
+    for k in range(4 if ctx.quick else 100):
+        seed = ctx.seed * 10 + k
+        rep = dict(kind='simpledur', seed=seed, rounds=60, how='h simpledur -seed S -rounds 60')
+        rc, o, e = vlib.harness(['simpledur', '-seed', str(seed), '-rounds', '60'], timeout=300)
+        if rc != 0:
+            fails.append(Failure(ctx.prop, 'panic', 'simpledur-harness', (e or o)[-400:], replay=rep))
+            continue
+        for line in o.splitlines():
+            m = re.match(r'^U (\d+) BAD (.*)$', line)
+            if m and not [f for f in fails if f.kind == 'durable']:
+                fails.append(Failure(ctx.prop, 'durable', 'getattr', m.group(2)[:300], replay=dict(rep, event_prefix=int(m.group(1)))))
+            m = re.match(r'^UD rounds=\d+ conclusive=(\d+)', line)
+            if m:
+                nobs += int(m.group(1))
+    cov['replies_checked_against_the_crash_image_of_their_moment'] = nobs
+    cov['evaluations'] += nobs
     return fails, cov
 
 
 def replay(ctx, path):
     import json
     r = json.load(open(path))
+    if r.get('kind') == 'simpledur':
+        rc, o, e = vlib.harness(['simpledur', '-seed', str(r['seed']), '-rounds', str(r['rounds'])], timeout=300)
+        print(o[-800:])
+        return 1 if ' BAD ' in o or rc != 0 else 0
     if r.get('kind') in ('simpleconc', 'kvsconc'):
         mode = r['kind']
         trace = os.path.join(ctx.work, mode + '_replay.trace')
